@@ -1,6 +1,8 @@
 package ir
 
 import (
+	"go/token"
+	"go/types"
 	"sort"
 
 	"golang.org/x/tools/go/callgraph"
@@ -50,11 +52,14 @@ func (p *Prog) Successors(fn *ssa.Function) []*ssa.Function {
 		seen[f] = true
 		out = append(out, f)
 	}
-	if n := g.Nodes[fn]; n != nil {
-		for _, e := range n.Out {
-			add(e.Callee.Func)
+	_ = g
+	Instrs(fn, func(in ssa.Instruction) {
+		if ci, ok := in.(ssa.CallInstruction); ok {
+			for _, t := range p.Targets(ci) {
+				add(t)
+			}
 		}
-	}
+	})
 	for _, a := range fn.AnonFuncs {
 		add(a)
 	}
@@ -235,6 +240,167 @@ func (p *Prog) CallStaticallyReaches(site ssa.CallInstruction, pred func(*ssa.Ca
 	}
 	if f := site.Common().StaticCallee(); f != nil && InRepo(f) {
 		ok, _ := p.StaticReaches(f, pred)
+		return ok
+	}
+	return false
+}
+
+// ---------------------------------------------------------------------------------
+// precise resolution of calls through function values
+
+type fkey struct {
+	st    *types.Named
+	field string
+}
+
+func (p *Prog) funcStores() (map[fkey][]ssa.Value, map[*ssa.Global][]ssa.Value) {
+	if p.fstores != nil {
+		return p.fstores, p.gstores
+	}
+	p.fstores = map[fkey][]ssa.Value{}
+	p.gstores = map[*ssa.Global][]ssa.Value{}
+	for _, fn := range p.Funcs {
+		Instrs(fn, func(in ssa.Instruction) {
+			st, ok := in.(*ssa.Store)
+			if !ok {
+				return
+			}
+			if _, isSig := st.Val.Type().Underlying().(*types.Signature); !isSig {
+				return
+			}
+			if ref, ok := FieldAddrOf(st.Addr); ok && ref.Struct != nil {
+				k := fkey{ref.Struct.Origin(), ref.Field}
+				p.fstores[k] = append(p.fstores[k], st.Val)
+			}
+			if g, ok := st.Addr.(*ssa.Global); ok {
+				p.gstores[g] = append(p.gstores[g], st.Val)
+			}
+		})
+	}
+	return p.fstores, p.gstores
+}
+
+// Targets resolves the possible callees of a call site: the static callee; CHA/VTA
+// targets for interface method calls; for calls through function values, the function
+// literals / functions that can flow to the value (through parameters, struct fields,
+// globals, phis and results), falling back to the call graph when the flow cannot be
+// followed.
+func (p *Prog) Targets(site ssa.CallInstruction) []*ssa.Function {
+	c := site.Common()
+	if f := c.StaticCallee(); f != nil {
+		return []*ssa.Function{f}
+	}
+	if c.IsInvoke() {
+		return p.Callees(site)
+	}
+	seen := map[ssa.Value]bool{}
+	out := map[*ssa.Function]bool{}
+	if !p.flowFuncs(c.Value, 0, seen, out) {
+		return p.Callees(site)
+	}
+	var res []*ssa.Function
+	for f := range out {
+		res = append(res, f)
+	}
+	sort.Slice(res, func(i, j int) bool { return res[i].String() < res[j].String() })
+	return res
+}
+
+func (p *Prog) flowFuncs(v ssa.Value, depth int, seen map[ssa.Value]bool, out map[*ssa.Function]bool) bool {
+	if depth > 8 {
+		return false
+	}
+	v = Canon(v)
+	if seen[v] {
+		return true
+	}
+	seen[v] = true
+	switch x := v.(type) {
+	case *ssa.Function:
+		out[x] = true
+		return true
+	case *ssa.MakeClosure:
+		if f, ok := x.Fn.(*ssa.Function); ok {
+			out[f] = true
+			return true
+		}
+		return false
+	case *ssa.Const:
+		return true // nil func
+	case *ssa.Phi:
+		for _, e := range x.Edges {
+			if !p.flowFuncs(e, depth+1, seen, out) {
+				return false
+			}
+		}
+		return true
+	case *ssa.Parameter:
+		// The function value is supplied by the caller. Callers are accounted for where
+		// the value is created: a function that references a function literal / function
+		// value has it as a successor (see Successors), so resolving the parameter here
+		// again (context-insensitively, over all callers) would only add noise.
+		return true
+	case *ssa.UnOp:
+		if x.Op != token.MUL {
+			return false
+		}
+		fs, gs := p.funcStores()
+		if ref, ok := FieldAddrOf(x.X); ok && ref.Struct != nil {
+			vals := fs[fkey{ref.Struct.Origin(), ref.Field}]
+			for _, sv := range vals {
+				if !p.flowFuncs(sv, depth+1, seen, out) {
+					return false
+				}
+			}
+			return true
+		}
+		if g, ok := x.X.(*ssa.Global); ok {
+			for _, sv := range gs[g] {
+				if !p.flowFuncs(sv, depth+1, seen, out) {
+					return false
+				}
+			}
+			return true
+		}
+		if al, ok := cellOf(x.X).(*ssa.Alloc); ok {
+			for _, st := range AllStores(al) {
+				if !p.flowFuncs(st.Val, depth+1, seen, out) {
+					return false
+				}
+			}
+			return true
+		}
+		return false
+	case *ssa.Extract:
+		if call, ok := x.Tuple.(*ssa.Call); ok {
+			if callee := call.Call.StaticCallee(); callee != nil && callee.Blocks == nil {
+				return true // produced by an opaque library function (see *ssa.Call below)
+			}
+		}
+		return false
+	case *ssa.Call:
+		callee := x.Call.StaticCallee()
+		if callee != nil && callee.Blocks == nil {
+			// a function value produced by an opaque library function: any repository
+			// function it may end up calling was passed in by (and is a successor of) the
+			// function that references it
+			return true
+		}
+		if callee == nil {
+			return false
+		}
+		ok := true
+		Instrs(callee, func(in ssa.Instruction) {
+			if r, isRet := in.(*ssa.Return); isRet && ok {
+				for _, rv := range r.Results {
+					if _, isSig := rv.Type().Underlying().(*types.Signature); isSig {
+						if !p.flowFuncs(rv, depth+1, seen, out) {
+							ok = false
+						}
+					}
+				}
+			}
+		})
 		return ok
 	}
 	return false
